@@ -155,21 +155,20 @@ Section WithMerge.
     inv_cached : match cached s with
                  | Some sn => forall k, snap_get sn k = ref_from m0 h k
                  | None => True
-                 end;
-    inv_mf : cache_persisted c = true -> mf_stack (dirty s)
+                 end
   }.
 
   Definition Inv c m0 h s : Prop := closed s = true \/ InvOpen c m0 h s.
 
   Lemma inv_init c l : Inv c (llv l) [] (init l).
   Proof.
-    right. constructor; simpl; auto. intros _ s [].
+    right. constructor; simpl; auto.
   Qed.
 
   Lemma mk_snapshot_view c m0 h s :
     InvOpen c m0 h s -> forall k, snap_get (mk_snapshot s) k = ref_from m0 h k.
   Proof.
-    intros [Hv Hc _ _ _] k. unfold Collection.snap_get, mk_snapshot; simpl.
+    intros [Hv Hc _ _] k. unfold Collection.snap_get, mk_snapshot; simpl.
     rewrite <- (Hv k). unfold dirty.
     rewrite !app_assoc. rewrite sget_app. rewrite <- !app_assoc.
     apply sget_ext. apply Hc.
@@ -181,7 +180,7 @@ Section WithMerge.
     (merger s' = merger s \/ merger s' = MIdle \/ merger s' = MSwapped) ->
     InvOpen c m0 h s -> InvOpen c m0 h s'.
   Proof.
-    intros E1 E2 E3 E4 E5 E6 E7 [Hv Hc Hm Hca Hf].
+    intros E1 E2 E3 E4 E5 E6 E7 [Hv Hc Hm Hca].
     constructor; unfold dirty in *; rewrite ?E1, ?E2, ?E3, ?E4, ?E5, ?E6; auto.
     destruct E7 as [->|[->| ->]]; auto.
   Qed.
@@ -189,34 +188,33 @@ Section WithMerge.
   Definition label_batches (lb : label) : list segment :=
     match lb with LBatch b => [b] | _ => [] end.
 
-  Definition label_mf (lb : label) : Prop :=
-    match lb with LBatch b => seg_has_merge b = false | _ => True end.
+  Lemma mf_stack_existsb b : existsb seg_has_merge b = false -> mf_stack b.
+  Proof.
+    intros H sg Hin. destruct (seg_has_merge sg) eqn:E; auto.
+    assert (existsb seg_has_merge b = true); [|congruence].
+    apply existsb_exists. eauto.
+  Qed.
 
   Theorem step_inv c m0 h s lb s' :
-    (cache_persisted c = true -> label_mf lb) ->
     Inv c m0 h s -> step c s lb = Some s' -> Inv c m0 (h ++ label_batches lb) s'.
   Proof.
-    intros Hmf [Hcl|HI] Hs.
+    intros [Hcl|HI] Hs.
     { unfold Collection.step in Hs. rewrite Hcl in Hs. discriminate. }
     unfold Collection.step in Hs. destruct (closed s) eqn:Ecl; [discriminate|].
-    pose proof HI as HI0. destruct HI as [Hv Hc Hm Hca Hf].
+    pose proof HI as HI0. destruct HI as [Hv Hc Hm Hca].
     destruct lb; simpl label_batches; rewrite ?app_nil_r.
     - (* LBatch *)
       destruct (uniq_keys (keys b) && negb (Nat.eqb (length b) 0)) eqn:G; [|discriminate].
       injection Hs as <-. apply andb_true_iff in G. destruct G as [Gu _].
       apply uniq_keys_NoDup in Gu.
       right. constructor; simpl; auto.
-      + intros k. unfold dirty; simpl. rewrite ref_from_snoc.
-        rewrite find_sort_seg by auto. fold (dirty s). rewrite (Hv k). reflexivity.
-      + intros Hcp. unfold dirty; simpl. intros sg [<-|Hin].
-        * apply sort_seg_mf. apply (Hmf Hcp).
-        * apply (Hf Hcp); auto.
+      intros k. unfold dirty; simpl. rewrite ref_from_snoc.
+      rewrite find_sort_seg by auto. fold (dirty s). rewrite (Hv k). reflexivity.
     - (* LIngest *)
       destruct (merger s); try discriminate. injection Hs as <-.
       right. constructor; simpl; auto.
-      + intros k. unfold dirty; simpl. rewrite <- (Hv k). unfold dirty.
-        now rewrite <- app_assoc.
-      + intros Hcp. unfold dirty; simpl. rewrite <- app_assoc. apply (Hf Hcp).
+      intros k. unfold dirty; simpl. rewrite <- (Hv k). unfold dirty.
+      now rewrite <- app_assoc.
     - (* LSwap *)
       destruct (merger s) as [|mb ml|] eqn:Em; try discriminate.
       destruct (Nat.ltb lvl (length (olist (mid s))) || Nat.eqb (length (olist (mid s))) 0) eqn:G;
@@ -233,28 +231,16 @@ Section WithMerge.
         rewrite (merge_stack_ext lvl (x :: xs) _ B) by (intros; apply Hm).
         apply merge_stack_view. }
       right. constructor; simpl; auto.
-      + intros k. rewrite <- (Hv k). unfold dirty; simpl.
-        rewrite !(sget_app fm (top s)). apply sget_ext. rewrite !sget_app. fold B. apply Hm'.
-      + intros Hcp. specialize (Hf Hcp). unfold dirty in *; simpl.
-        intros sg Hin. apply in_app_or in Hin. destruct Hin as [Hin|Hin].
-        { apply Hf. apply in_or_app; auto. }
-        apply in_app_or in Hin. destruct Hin as [Hin|Hin].
-        2:{ apply Hf. apply in_or_app; right; apply in_or_app; auto. }
-        assert (Hmid : mf_stack (olist (mid s))).
-        { intros s0 H0. apply Hf. apply in_or_app; right; apply in_or_app; auto. }
-        destruct (olist (mid s)) as [|x xs] eqn:Eo; [destruct Hin|].
-        destruct (Nat.ltb lvl (length (x :: xs))); [|auto].
-        eapply merge_stack_mf; eauto.
+      intros k. rewrite <- (Hv k). unfold dirty; simpl.
+      rewrite !(sget_app fm (top s)). apply sget_ext. rewrite !sget_app. fold B. apply Hm'.
     - (* LHandover *)
       destruct (merger s) eqn:Em; try discriminate.
       destruct (base s) eqn:Eb, (mid s) eqn:Emid;
         try (injection Hs as <-; right; apply (inv_same c m0 h s); simpl; auto; fail).
       destruct (has_ll c); injection Hs as <-.
       + right. constructor; simpl; auto.
-        * intros k. rewrite <- (Hv k). unfold dirty; simpl. rewrite Eb, Emid; simpl.
-          rewrite ?app_nil_r. reflexivity.
-        * intros Hcp. specialize (Hf Hcp). unfold dirty in *; simpl in *. rewrite Eb, Emid in Hf.
-          simpl in Hf. rewrite ?app_nil_r in Hf. exact Hf.
+        intros k. rewrite <- (Hv k). unfold dirty; simpl. rewrite Eb, Emid; simpl.
+        rewrite ?app_nil_r. reflexivity.
       + right. apply (inv_same c m0 h s); simpl; auto.
     - (* LPBegin *)
       destruct (persister s); try discriminate.
@@ -270,16 +256,12 @@ Section WithMerge.
       + intros k. rewrite <- (Hv k). unfold dirty; simpl. rewrite Eb; simpl.
         rewrite app_nil_r. rewrite (app_assoc (top s)). rewrite (sget_app fm (top s ++ olist (mid s)) b).
         apply sget_ext. apply Hp.
-      + intros k. destruct (cache_persisted c) eqn:Ecp; simpl; auto.
+      + intros k. destruct (cache_persisted c && negb (existsb seg_has_merge b)) eqn:Ecp; simpl; auto.
+        apply andb_true_iff in Ecp. destruct Ecp as [_ Ecp]. apply negb_true_iff in Ecp.
         rewrite (sget_ext fm b (llv ll') (sget b (llv (ll s))) k (Hp k)).
-        rewrite Hp. apply sget_idem_mf.
-        intros sg Hin. apply (Hf eq_refl). unfold dirty. rewrite Eb; simpl.
-        apply in_or_app; right; apply in_or_app; auto.
+        rewrite Hp. apply sget_idem_mf. apply mf_stack_existsb; auto.
       + destruct (merger s) as [|mb ml|]; auto.
         intros k. rewrite (Hm k). simpl. symmetry; apply Hp.
-      + intros Hcp. specialize (Hf Hcp). unfold dirty in *; simpl in *. rewrite Eb in Hf; simpl in Hf.
-        rewrite app_nil_r. intros sg Hin. apply Hf. apply in_app_or in Hin.
-        destruct Hin; apply in_or_app; auto. right; apply in_or_app; auto.
     - (* LPFail *)
       destruct (persister s); try discriminate. injection Hs as <-.
       right. apply (inv_same c m0 h s); simpl; auto.
@@ -292,35 +274,29 @@ Section WithMerge.
       injection Hs as <-. left. reflexivity.
   Qed.
 
-  Fixpoint labels_mf (ls : list label) : Prop :=
-    match ls with [] => True | l :: r => label_mf l /\ labels_mf r end.
-
   Lemma batches_cons lb ls : batches (lb :: ls) = label_batches lb ++ batches ls.
   Proof. destruct lb; reflexivity. Qed.
 
   Theorem run_inv c m0 h s ls s' :
-    (cache_persisted c = true -> labels_mf ls) ->
     Inv c m0 h s -> run c s ls = Some s' -> Inv c m0 (h ++ batches ls) s'.
   Proof.
-    revert h s. induction ls as [|lb ls IH]; intros h s Hmf HI Hr; simpl in Hr.
+    revert h s. induction ls as [|lb ls IH]; intros h s HI Hr; simpl in Hr.
     - injection Hr as <-. simpl. now rewrite app_nil_r.
     - destruct (step c s lb) as [s1|] eqn:Es; [|discriminate].
       rewrite batches_cons, app_assoc. apply IH with s1; auto.
-      + intros Hcp. apply (Hmf Hcp).
-      + eapply step_inv; eauto. intros Hcp. apply (Hmf Hcp).
+      eapply step_inv; eauto.
   Qed.
 
   (* --- what the invariant gives the reader --------------------------------- *)
 
   Theorem reads_are_reference c l ls s :
-    (cache_persisted c = true -> labels_mf ls) ->
     run c (init l) ls = Some s -> closed s = false ->
     forall k,
       snap_get (cur_snapshot s) k = ref_from (llv l) (batches ls) k /\
       snap_get (mk_snapshot s) k = ref_from (llv l) (batches ls) k.
   Proof.
-    intros Hmf Hr Hcl k.
-    pose proof (run_inv c (llv l) [] (init l) ls s Hmf (inv_init c l) Hr) as HI.
+    intros Hr Hcl k.
+    pose proof (run_inv c (llv l) [] (init l) ls s (inv_init c l) Hr) as HI.
     simpl in HI. destruct HI as [HI|HI]; [congruence|].
     split.
     - unfold cur_snapshot. destruct (cached s) eqn:Ec.
